@@ -186,7 +186,9 @@ def _index_kind(f, expr, seen=None, depth=0):
             return 'static' if k(e.body) == 'static' and k(e.orelse) == 'static' else 'external'
         if isinstance(e, ast.Call):
             d = dotted(e.func)
-            if d in ('slice', 'range', 'len', 'int', 'tuple', 'list'):
+            if d == 'slice':
+                return 'static'         # a slice object never addresses an element twice, whatever its bounds
+            if d in ('range', 'len', 'int', 'tuple', 'list'):
                 return 'static' if all(k(a) == 'static' for a in e.args) else 'external'
             return 'external'
         if isinstance(e, (ast.ListComp, ast.GeneratorExp)):
@@ -254,15 +256,16 @@ def check_scatter(model, R, funcs, P, grad_param_of=None, floor=1):
         recs = []
         orig = dom.store_subscript
 
-        def rec(I_, base, index, val, node, aug=None, _orig=orig):
-            recs.append((dom.c(base), dom.c(index), dom.c(val), node, aug))
+        def rec(I_, base, index, val, node, aug=None, _orig=orig, _f=f):
+            if I_.func is _f:       # stores of callees are judged when the callee itself is analysed
+                recs.append((dom.c(base), dom.c(index), dom.c(val), node, aug))
             return _orig(I_, base, index, val, node, aug)
         dom.store_subscript = rec
         orig_np = dom._numpy
         atcalls = []
 
-        def recnp(I_, name, args, cargs, kwargs, ckw, node, _o=orig_np):
-            if name.endswith('.at'):
+        def recnp(I_, name, args, cargs, kwargs, ckw, node, _o=orig_np, _f=f):
+            if name.endswith('.at') and I_.func is _f:
                 atcalls.append((name, cargs, node))
             return _o(I_, name, args, cargs, kwargs, ckw, node)
         dom._numpy = recnp
@@ -470,3 +473,125 @@ def check_reduce(model, R, P, kernels):
         ok = fs == want or fs == alt
         R.ob(P + '.REDUCE', f.qualname, norm(n) + ' under ' + str(sorted(fs)), ok,
              'the upstream gradient must be unsqueezed along the reduced axes iff `not keepdims and %s is not None`' % ax, _loc(f, n))
+
+
+# ------------------------------------------------------------------------------------------------ DEP
+# Frozen table (confirmed by reading each kernel against its forward sibling): the parameters every returned
+# gradient slot must data-depend on, on EVERY path.  A kernel that stops using a saved value (a dropped factor,
+# an ignored geometry argument, an eval-mode branch without the 1/sqrt(var+eps) scale) is wrong for some input.
+DEP = {
+    'add_backward': [{'grad', 'a_shape'}, {'grad', 'b_shape'}],
+    'mul_backward': [{'grad', 'b'}, {'grad', 'a'}],
+    'matmul_backward': [{'grad', 'b'}, {'grad', 'a'}],
+    'addmm_backward': [{'grad', 'a'}, {'grad', 'c'}, {'grad', 'b'}],
+    'pow_backward': [{'grad', 'a', 'n'}],
+    'rpow_backward': [{'grad', 'exp_n_a', 'n'}],
+    'neg_backward': [{'grad'}], 'clone_backward': [{'grad'}],
+    'slice_backward': [{'grad', 's', 'a_shape'}],
+    'concat_backward': [{'grad', 'sections', 'axis'}],
+    'stack_backward': [{'grad', 'axis'}],
+    'unbind_backward': [{'grad', 'a_shape', 'axis'}],
+    'exp_backward': [{'grad', 'exp_a'}], 'log_backward': [{'grad', 'a'}], 'sqrt_backward': [{'grad', 'sqrt_a'}],
+    'sum_backward': [{'grad', 'a_shape'}], 'mean_backward': [{'grad', 'a_shape'}],
+    'max_backward': [{'grad', 'a'}], 'min_backward': [{'grad', 'a'}],
+    'squeeze_backward': [{'grad', 'a_shape'}], 'reshape_backward': [{'grad', 'a_shape'}], 'unsqueeze_backward': [{'grad', 'axis'}],
+    'movedim_backward': [{'grad', 'source', 'destination'}], 'transpose_backward': [{'grad', 'axis0', 'axis1'}],
+    'unfold_dim_backward': [{'grad', 'a_shape', 'dimension', 'size', 'step'}],
+    'relu_backward': [{'grad', 'a'}], 'leaky_relu_backward': [{'grad', 'a', 'neg_slope'}], 'selu_backward': [{'grad', 'a', 'alpha', 'scale'}],
+    'tanh_backward': [{'grad', 'tanh_a'}], 'sigmoid_backward': [{'grad', 'sigmoid_a'}],
+    'softmax_backward': [{'grad', 'softmax_a', 'axis'}], 'log_softmax_backward': [{'grad', 'log_softmax_a', 'axis'}],
+    'mse_loss_backward': [{'grad', 'y_pred', 'y_true'}], 'nll_loss_backward': [{'grad', 'y_pred', 'y_true'}],
+    'bce_loss_backward': [{'grad', 'y_pred', 'y_true'}], 'bce_with_logits_loss_backward': [{'grad', 'y_pred', 'y_true'}],
+    'cross_entropy_loss_backward': [{'grad', 'y_pred', 'y_true'}],
+    'max_pool1d_backward': [{'grad', 'a_shape', 'kernel_size', 'stride', 'padding', 'dilation', 'windows'}],
+    'max_pool2d_backward': [{'grad', 'a_shape', 'kernel_size', 'stride', 'padding', 'dilation', 'windows'}],
+    'avg_pool1d_backward': [{'grad', 'a_shape', 'kernel_size', 'stride', 'padding', 'dilation', 'windows'}],
+    'avg_pool2d_backward': [{'grad', 'a_shape', 'kernel_size', 'stride', 'padding', 'dilation', 'windows'}],
+    'conv1d_backward': [{'grad', 'weight', 'a_shape', 'stride', 'padding', 'dilation'}, {'grad', 'windows'}, {'grad'}],
+    'conv2d_backward': [{'grad', 'weight', 'a_shape', 'stride', 'padding', 'dilation'}, {'grad', 'windows'}, {'grad'}],
+    'batch_norm_backward': [{'grad', 'variance', 'eps'}, {'grad', 'x', 'mean', 'variance', 'eps'}, {'grad'}],
+    'col2im_fast': [{'a', 'output_shape', 'kernel_size', 'dilation', 'stride', 'padding'}],
+    'im2col_fast': [{'a', 'kernel_size', 'dilation', 'stride', 'padding'}],
+}
+
+
+def check_dep(model, R, P, kernel_funcs):
+    from .domains.dep import MustDep, DepInterp
+    R.rule(P + '.DEP', 'on every path each returned gradient slot data-depends on the saved values / arguments its closed form needs '
+                       '(frozen table, must-dependence analysis: join = intersection)', floor=len(kernel_funcs))
+    for kf in kernel_funcs:
+        want = DEP.get(kf.name)
+        if want is None:
+            R.incomplete_at(P + '.DEP', kf.qualname, 'backward kernel has no entry in the dependence table')
+            continue
+        dom = MustDep()
+        I = DepInterp(model, kf, dom)
+        try:
+            ret = I.run()
+        except Incomplete as e:
+            R.incomplete_at(P + '.DEP', kf.qualname, str(e))
+            continue
+        slots = ret.items if isinstance(ret, Tup) else [ret]
+        params = set(kf.params)
+        for k, w in enumerate(want):
+            stale = w - params
+            if stale:
+                R.incomplete_at(P + '.DEP', kf.qualname, 'table names parameter(s) %s that no longer exist' % sorted(stale))
+                continue
+            if k >= len(slots):
+                R.ob(P + '.DEP', kf.qualname, 'slot %d' % k, False, 'kernel returns %d slots, table expects %d' % (len(slots), len(want)), kf.loc)
+                continue
+            have = dom.c(slots[k])
+            missing = w - have
+            R.ob(P + '.DEP', kf.qualname, 'slot %d depends on %s' % (k, sorted(w)), not missing,
+                 'on some path slot %d does not depend on %s (must-dependence set: %s)' % (k, sorted(missing), sorted(have)), kf.loc)
+
+
+# ------------------------------------------------------------------------------------------------ AXISGEN
+REDUCERS = {'sum', 'max', 'min', 'mean', 'argmax', 'argmin', 'prod', 'cumsum', 'expand_dims', 'squeeze', 'any', 'all', 'std', 'var', 'logsumexp', 'stack', 'concatenate'}
+
+
+def check_axisgen(model, R, P, kernel_quals):
+    """kernels with an `axis` parameter must be generic in it: no literal axis in a reduction over an array operand, no Python iteration over an array operand"""
+    R.rule(P + '.AXISGEN', 'a kernel taking an axis parameter uses that parameter (not a literal axis, not Python iteration over rows) in every reduction', floor=len(kernel_quals))
+    for q in kernel_quals:
+        f = model.func(q)
+        axp = [p for p in f.params if p in ('axis', 'dim')]
+        if not axp:
+            R.incomplete_at(P + '.AXISGEN', q, 'kernel no longer has an axis parameter')
+            continue
+        ax = axp[0]
+        arrays = {a.arg for a in f.node.args.args if a.annotation is not None and 'ndarray' in norm(a.annotation)}
+        # derived arrays: any local assigned from an expression mentioning an array
+        changed = True
+        while changed:
+            changed = False
+            for n in body_walk(f.node):
+                if isinstance(n, ast.Assign) and len(n.targets) == 1 and isinstance(n.targets[0], ast.Name):
+                    if names_in(n.value) & arrays and n.targets[0].id not in arrays:
+                        arrays.add(n.targets[0].id)
+                        changed = True
+        n_red = 0
+        for n in ast.walk(f.node):
+            if isinstance(n, ast.Call):
+                name = n.func.attr if isinstance(n.func, ast.Attribute) else (n.func.id if isinstance(n.func, ast.Name) else None)
+                if name in REDUCERS and (names_in(n) & arrays):
+                    kws = [k for k in n.keywords if k.arg == 'axis']
+                    if kws:
+                        n_red += 1
+                        v = kws[0].value
+                        ok = isinstance(v, ast.Name) and v.id == ax
+                        R.ob(P + '.AXISGEN', q, norm(n)[:90], ok, 'reduction over an array operand must use the kernel\'s `%s` parameter, found axis=%s' % (ax, norm(v)), _loc(f, n))
+                    elif name in ('expand_dims',) and len(n.args) > 1:
+                        n_red += 1
+                        v = n.args[1]
+                        R.ob(P + '.AXISGEN', q, norm(n)[:90], isinstance(v, ast.Name) and v.id == ax, 'axis argument must be the axis parameter', _loc(f, n))
+            if isinstance(n, (ast.For, ast.comprehension)) and isinstance(n.iter, ast.Name) and n.iter.id in arrays:
+                n_red += 1
+                R.ob(P + '.AXISGEN', q, 'iteration over ' + n.iter.id, False, 'Python iteration over an array operand walks axis 0, whatever `%s` is' % ax, f.loc)
+            if isinstance(n, ast.Subscript) and isinstance(n.value, ast.Attribute) and n.value.attr == 'shape' and isinstance(n.slice, ast.Constant) \
+                    and isinstance(n.value.value, ast.Name) and n.value.value.id in arrays:
+                n_red += 1
+                R.ob(P + '.AXISGEN', q, norm(n), False, 'literal-axis extent of an array operand in an axis-generic kernel', _loc(f, n))
+        if n_red == 0:
+            R.ob(P + '.AXISGEN', q, 'no reduction found', False, 'an axis-taking kernel must reduce along its axis parameter', f.loc)
